@@ -51,7 +51,7 @@ PROBES = ["remove_first_value", "remove_last_value", "remove_middle_value",
           "two_views_of_the_same_field"]
 
 WSV = ["amd64", "i386", "any", "linux-any", "x", "a1", "#h", "!hurd", "[x]", "ü"]
-CMV = ["libc6", "foo (>= 1.0)", "x y", "bb", "a | b", "#h", "${misc:Depends}", "q"]
+CMV = ["libc6", "foo (>= 1.0)", "x y", "bb", "a | b", "#h", "${misc:Depends}", "q", "a b"]
 LISTNAMES = ["Depends", "Arch", "Uploaders"]
 OTHER = ["Package", "Section", "X-Foo", "Description"]
 
@@ -190,7 +190,8 @@ def generate(seed, run, tier):
             st["held"] = rq.random() < 0.3
         if k == "bad":
             st["val"] = rq.choice(["", "a b" if kinds[f] == "ws" else "a,b", " x", "x ",
-                                   "a\nb"])
+                                   "a\nb"] + ([v_ for v_ in CMV if " " in v_] if kinds[f] == "ws"
+                                              else ["x,y"]))
             st["how"] = rq.choice(["append", "replace", "ref_set"])
             st["which"] = rq.choice([0, -1])
         steps.append(st)
@@ -570,8 +571,7 @@ def execute(case):
                     k = m.index(m[k])
                     lv.replace(m[k], val)
                     if not expect_err:
-                        m[k] = val
-                        V["refs"].pop(V["slots"][k], None)   # node value object replaced
+                        m[k] = val     # replace() is documented to keep references valid
                 elif how in ("ref_set", "ref_remove"):
                     slot = V["slots"][k]
                     if st.get("held") and slot in V["refs"]:
